@@ -176,7 +176,13 @@ class Translator:
             self.typedefs.append('typedef %s %s(%s);' % (rt, r, args))
             return r
         elif kind == TK['Vector']:
-            raise Unsupported('vector type ' + tstr(t))
+            # small vectors appear through ABI coercion (std::complex<float> is passed as <2 x float>): a struct of n elements
+            et = GetElementType(t); n = GetVectorSize(t); en = self.ctype(et)
+            if GetTypeKind(et) not in (TK['Float'], TK['Double'], TK['Integer']) or n > 8: raise Unsupported('vector type ' + tstr(t))
+            r = 'V%d_%s' % (n, re.sub(r'\W', '', en))
+            if r not in getattr(self, 'vec_defined', set()):
+                self.vec_defined = getattr(self, 'vec_defined', set()) | {r}
+                self.typedefs.append('typedef struct { %s a[%d]; } %s; /* %s */' % (en, n, r, tstr(t)))
         else:
             raise Unsupported('type ' + tstr(t))
         self.types[key] = r
@@ -268,7 +274,7 @@ class Translator:
         if k == VK['ConstantPointerNull']: return '((%s)0)' % ct
         if k in (VK['UndefValue'], VK['PoisonValue']):
             tk = GetTypeKind(t)
-            if tk in (TK['Struct'], TK['Array']): return '(%s){0}' % ct
+            if tk in (TK['Struct'], TK['Array'], TK['Vector']): return '(%s){0}' % ct
             return '((%s)0)' % ct
         if k == VK['GlobalVariable']:
             if IsDeclaration(v) and vname(v).startswith('_ZTI') and ct == 'u8**': return '((u8**)%s)' % self.gname(v)   # external type_info: {vptr, name} array
@@ -276,6 +282,10 @@ class Translator:
         if k == VK['Function']: return '(&%s)' % self.fname(v)
         if k == VK['ConstantExpr']: return self.constexpr(v)
         if k == VK['ConstantAggregateZero']: return '(%s){0}' % ct
+        if k in (VK['ConstantVector'], VK['ConstantDataVector']):
+            n = GetVectorSize(t)
+            els = [GetElementAsConstant(v, i) if k == VK['ConstantDataVector'] else GetOperand(v, i) for i in range(n)]
+            return '(%s){{%s}}' % (ct, ', '.join(self.const(e) for e in els))
         if k in (VK['ConstantStruct'], VK['ConstantArray'], VK['ConstantDataArray']):
             return '(%s)%s' % (ct, self.init(v))
         raise Unsupported('const kind %d: %s' % (k, vstr(v)))
@@ -335,7 +345,7 @@ class Translator:
                 i = ConstIntGetZExtValue(o)
                 n = CountStructElementTypes(t); arr = (P * n)(); GetStructElementTypes(t, arr)
                 e += '.f%d' % i; t = arr[i]
-            elif tk == TK['Array']:
+            elif tk in (TK['Array'], TK['Vector']):
                 e += '.a[(int64_t)%s]' % self.idx(o); t = GetElementType(t)
             else:
                 raise Unsupported('gep into ' + tstr(t))
@@ -380,6 +390,8 @@ class Translator:
         if op == 'ashr':
             w = GetIntTypeWidth(t)
             return '(%s < %d ? %s : (%s)0)' % (A(1), w, self.mask(t, '%s >> %s' % (self.sval(ops[0]), A(1))), ct)
+        if op in ('fadd', 'fsub', 'fmul', 'fdiv') and getattr(self, 'hook_fp', False) and not is_const and ct in ('float', 'double'):
+            return '__verif_fop%s(%d, %s, %s)' % ('32' if ct == 'float' else '64', ['fadd', 'fsub', 'fmul', 'fdiv'].index(op), A(0), A(1))
         if op in ('fadd', 'fsub', 'fmul', 'fdiv'):
             c = {'fadd': '+', 'fsub': '-', 'fmul': '*', 'fdiv': '/'}[op]
             return '(%s %s %s)' % (A(0), c, A(1))
@@ -499,7 +511,7 @@ class Translator:
                     cnt += 1
                     self.locals[ins] = 'r%d' % cnt
                 ins = GetNextInstruction(ins)
-        retdefault = '' if rt == 'void' else ('(%s){0}' % rt if rt.startswith('struct') or re.match(r'A\d+$', rt) else '(%s)0' % rt)
+        retdefault = '' if rt == 'void' else ('(%s){0}' % rt if rt.startswith('struct') or re.match(r'(A\d+|V\d+_\w+)$', rt) else '(%s)0' % rt)
         def edge(frm, to):
             """phi copies for edge frm->to then goto"""
             out = []
@@ -578,6 +590,14 @@ class Translator:
                     body.append('__verif_exc_pending = 0;')
                 elif op == 'resume':
                     body.append('__verif_exc_pending = 1; return %s;' % retdefault)
+                elif op == 'insertelement':
+                    r = self.locals[ins]
+                    body.append('%s = %s; %s.a[%s] = %s;' % (r, self.val(ops[0]), r, self.idx(ops[2]), self.val(ops[1])))
+                elif op == 'extractelement':
+                    body.append('%s = %s.a[%s];' % (self.locals[ins], self.val(ops[0]), self.idx(ops[1])))
+                elif op in ('fadd', 'fsub', 'fmul', 'fdiv') and GetTypeKind(t) == TK['Vector']:
+                    c = {'fadd': '+', 'fsub': '-', 'fmul': '*', 'fdiv': '/'}[op]; r = self.locals[ins]
+                    body.append(' '.join('%s.a[%d] = %s.a[%d] %s %s.a[%d];' % (r, i, self.val(ops[0]), i, c, self.val(ops[1]), i) for i in range(GetVectorSize(t))))
                 elif op == 'extractvalue':
                     e = self.val(ops[0]); tt = TypeOf(ops[0])
                     idxs = GetIndices(ins)
@@ -656,10 +676,15 @@ class Translator:
                 stmt = '%s(%s %s %s ? %s : %s);' % (lhs, self.sval(args[0]), c, self.sval(args[1]), A[0], A[1])
             elif re.match(r'llvm\.abs\.', base):
                 stmt = '%s%s;' % (lhs, self.mask(t, '(%s < 0 ? -%s : %s)' % (self.sval(args[0]), self.sval(args[0]), self.sval(args[0]))))
+            elif re.match(r'llvm\.(fabs|copysign|maxnum|minnum)\.(f32|f64)', base):
+                stmt = '%s__verif_%s%s(%s);' % (lhs, base.split('.')[1], '32' if base.endswith('f32') else '64', ', '.join(A))   # bit-level models in rt
             elif re.match(r'llvm\.(fabs|copysign|sqrt|floor|ceil|trunc|rint|nearbyint|round|fma|fmuladd|maxnum|minnum)\.(f32|f64)', base):
                 fn = base.split('.')[1]; suf = 'f' if base.endswith('f32') else ''
                 fn = {'maxnum': 'fmax', 'minnum': 'fmin', 'fmuladd': '__verif_fmuladd'}.get(fn, fn)
-                if fn == '__verif_fmuladd': stmt = '%s(%s * %s + %s);' % (lhs, A[0], A[1], A[2])
+                if fn == '__verif_fmuladd' and getattr(self, 'hook_fp', False):
+                    w = '32' if base.endswith('f32') else '64'
+                    stmt = '%s__verif_fop%s(0, __verif_fop%s(2, %s, %s), %s);' % (lhs, w, w, A[0], A[1], A[2])
+                elif fn == '__verif_fmuladd': stmt = '%s(%s * %s + %s);' % (lhs, A[0], A[1], A[2])
                 else: stmt = '%s__builtin_%s%s(%s);' % (lhs, fn, suf, ', '.join(A))
             elif re.match(r'llvm\.(ctpop|ctlz|cttz|bswap|fshl|fshr)\.', base):
                 fn = base.split('.')[1]; w = GetIntTypeWidth(t)
@@ -831,11 +856,13 @@ if __name__ == '__main__':
     ap.add_argument('ll'); ap.add_argument('outbase')
     ap.add_argument('--inert', default='')
     ap.add_argument('--lifetime-heap', action='store_true')
+    ap.add_argument('--hook-fp', action='store_true', help='route scalar float/double + - * / through the memoising rt functions')
     ap.add_argument('--hook-arith', nargs='?', const='nonconst', default='', help='route non-constant 32/64-bit mul/udiv/urem through the memoising rt functions')
     a = ap.parse_args()
     tr = Translator(a.ll)
     tr.lifetime_heap = a.lifetime_heap
     tr.hook_arith = a.hook_arith
+    tr.hook_fp = a.hook_fp
     inert = set(x for x in a.inert.split(';;') if x)
     c, h = tr.run(inert)
     open(a.outbase + '.c', 'w').write(c)
